@@ -43,6 +43,10 @@ FRAGMENTS = [
     "CC(=O)N", "c1ccoc1", "N#CC#N", "FC(F)=C(F)F", "ClC=CBr", "C1=CCC=CC1",
     "CSC", "c1ccc(cc1)C#N", "O=S(=O)(c1ccccc1)C", "C=CS(=O)(=O)C=C",
     "c1cnc2ccccc2c1", "IC#CI", "OC(=O)C=C", "NC(=N)N", "C=NO", "c1ncncn1",
+    "COP(OC)OC", "CP(OC)OC", "CCP(N(C)C)OC", "C=C=CC=C=C", "O=C=CC=C=O",
+    "C=CC=C=C", "C=C=CC=C", "O=C=Nc1ccccc1", "C=C=Cc1ccccc1", "CSSC",
+    "CSOC", "CSN(C)C", "COS(=O)(=O)OC", "OP(=O)(O)O", "CP(=O)(OC)OC",
+    "C=CP(C)C", "CSC=C", "S=C=S", "CN=C=O", "N#CC=C=C",
 ]
 
 
@@ -148,16 +152,32 @@ def check_structural(ctx, case):
 
 
 def cumulated_ring_atom(mol):
-    """a ring atom that carries two double bonds (strained cyclic
-    cumulene): the greedy pair matching of the routine cannot serve it when
-    the two such atoms of a ring are not adjacent"""
+    """Two or more atoms that each carry two double bonds and are linked
+    through unsaturated atoms (conjugated bis-cumulenes such as C=C=CC=C=C,
+    O=C=CC=C=O, 1,2,4,5-cyclohexatetraene), or one such atom inside a ring:
+    the routine starts from a maximum set of disjoint unsaturated bonds and
+    extends it greedily, which cannot serve two such atoms that are an odd
+    number of bonds apart."""
     from rdkit import Chem
-    for a in mol.GetAtoms():
-        if a.IsInRing() and sum(
-                1 for b in a.GetBonds()
-                if b.GetBondType() == Chem.BondType.DOUBLE) >= 2:
-            return True
-    return False
+    cum = [a for a in mol.GetAtoms() if sum(
+        1 for b in a.GetBonds()
+        if b.GetBondType() == Chem.BondType.DOUBLE) >= 2]
+    if any(a.IsInRing() for a in cum):
+        return True
+    if len(cum) < 2:
+        return False
+    # same unsaturated component?
+    unsat = {a.GetIdx() for a in mol.GetAtoms() if any(
+        b.GetBondTypeAsDouble() > 1 for b in a.GetBonds())}
+    start = cum[0].GetIdx()
+    seen, stack = {start}, [start]
+    while stack:
+        x = stack.pop()
+        for n in mol.GetAtomWithIdx(x).GetNeighbors():
+            if n.GetIdx() in unsat and n.GetIdx() not in seen:
+                seen.add(n.GetIdx())
+                stack.append(n.GetIdx())
+    return any(a.GetIdx() in seen for a in cum[1:])
 
 
 def check_chemical(ctx, case):
